@@ -311,7 +311,8 @@ R.contract("PriorityQueue.pop", assumed=True, params={"self": REF("PriorityQueue
 
 @R.spec
 def ADDITIVE(eng, st):
-    """SPANCOUNT of a disjoint union is the sum (a theorem about counting finite sets, assumed here)"""
+    """SPANCOUNT of a disjoint union is the sum: used as a lemma; base and step of its induction over the finite set are discharged as the lemma group
+    L#spancount-of-a-disjoint-union-is-the-sum at the end of this file"""
     A = z3.ArraySort(z3.IntSort(), z3.BoolSort())
     a, b, c = z3.Const(fresh_name("A"), A), z3.Const(fresh_name("B"), A), z3.Const(fresh_name("C"), A)
     r, k = z3.Ints(fresh_name("r") + " " + fresh_name("k"))
@@ -319,6 +320,12 @@ def ADDITIVE(eng, st):
                                               CNT_F(c, k) == CNT_F(a, k) + CNT_F(b, k)),
                      patterns=[z3.MultiPattern(CNT_F(c, k), CNT_F(a, k), CNT_F(b, k))])
 
+
+def additive_fact(eng, st):
+    return ADDITIVE(eng, st)
+
+
+additive_fact.__name__ = "lemma group readselect.pyx:L#spancount-of-a-disjoint-union-is-the-sum"
 
 _H = [
     ("cap", "CAP(coverages, max_cov)"),
@@ -370,7 +377,7 @@ R.contract(
         4: dict(index="bi", inv=_CF),
         5: dict(index="ci", inv=_CF),
     },
-    extra={"assume": ["COUNTING()", "ADDITIVE()"], "allocates": ["PriorityQueue", "ComponentFinder", "Node"]},
+    extra={"assume": ["COUNTING()"], "uses_lemmas": [additive_fact], "allocates": ["PriorityQueue", "ComponentFinder", "Node"]},
     props=P)
 
 
@@ -550,7 +557,7 @@ R.contract(
     modifies=_QMOD + ["CovMonitor.coverage", "ComponentFinder.nodes", "Node.value", "Node.parent"],
     locals={"readset": REF("CReadSet"), "selected_reads": SET(INT), "undecided_reads": SET(INT)},
     loops={0: dict(index="ri", inv=[("all-reads-so-far-cover-two-variants", "forall(r, implies(0 <= r and r < ri, len(pyreadset.thisptr.reads[r].pos) >= 2))")])},
-    extra={"assume": ["COUNTING()", "ADDITIVE()"], "allocates": ["PriorityQueue", "ComponentFinder", "Node", "CovMonitor"], "assume_asserts": [0]},
+    extra={"assume": ["COUNTING()"], "uses_lemmas": [additive_fact], "allocates": ["PriorityQueue", "ComponentFinder", "Node", "CovMonitor"], "assume_asserts": [0]},
     props=P)
 
 
@@ -570,3 +577,30 @@ def canary_slice_rejects_nothing():
 
 R.canaries.append(("readselect.pyx:canary#cap-never-reached", canary_strict_cap))
 R.canaries.append(("readselect.pyx:canary#slice-rejects-nothing", canary_slice_rejects_nothing))
+
+
+# ---------------------------------------------------------------------------------------------------------------------------------
+# ADDITIVE as a lemma: SPANCOUNT(a ∪ b, k) == SPANCOUNT(a, k) + SPANCOUNT(b, k) for disjoint a, b follows from the two defining (insertion) axioms by
+# induction on the finite set b: base b = {} and step b -> b ∪ {r} (r in neither set) are discharged here; the induction principle over finite sets is
+# meta-level, like for the other lemma groups ("sets are finite" is the engine's standing assumption about Python sets).
+def lemma_spancount_additive():
+    A = z3.ArraySort(z3.IntSort(), z3.BoolSort())
+    a, b, c, c2 = z3.Consts("lem_a lem_b lem_c lem_c2", A)
+    S = z3.Const("lem_S", A)
+    r, k, x = z3.Ints("lem_r lem_k lem_x")
+    empty = z3.K(z3.IntSort(), z3.BoolVal(False))
+    counting = [z3.ForAll([k], CNT_F(empty, k) == 0),
+                z3.ForAll([S, x, k], z3.Implies(z3.Not(S[x]), CNT_F(z3.Store(S, x, True), k) == CNT_F(S, k) + z3.If(z3.And(SPAN_B(x) <= k, k < SPAN_E(x)), 1, 0)),
+                          patterns=[CNT_F(z3.Store(S, x, True), k)])]
+    union = lambda u, p, q: z3.ForAll([x], u[x] == z3.Or(p[x], q[x]))
+    disjoint = lambda p, q: z3.ForAll([x], z3.Not(z3.And(p[x], q[x])))
+    additive = lambda u, p, q: z3.ForAll([k], CNT_F(u, k) == CNT_F(p, k) + CNT_F(q, k))
+    b2 = z3.Store(b, r, True)
+    goals = {
+        "base-empty-set": z3.Implies(union(c, a, empty), additive(c, a, empty)),
+        "step-one-more-read": z3.Implies(z3.And(union(c, a, b), disjoint(a, b), additive(c, a, b), z3.Not(a[r]), z3.Not(b[r]), union(c2, a, b2)), additive(c2, a, b2)),
+    }
+    return counting, goals
+
+
+R.lemmas.append(("readselect.pyx:L#spancount-of-a-disjoint-union-is-the-sum", P, lemma_spancount_additive))
